@@ -798,4 +798,35 @@ theorem frames_eq_specFrames (s : Bytes) (h : wfLines s = true) : frames .d1 [] 
   rw [← t2] at this
   simpa [specFrames] using this
 
+/-! ### "partial last line" without the encoder -/
+
+theorem rrun_isNone (m : Bytes) : ∀ s, (rrun s m).isNone = (rfinish (rstate s m)).isNone := by
+  induction m with
+  | nil => intro s; simp [rrun, rstate]
+  | cons c m ih =>
+    intro s
+    simp only [rrun, rstate]
+    rw [← ih]
+    cases rrun (rstep s c).1 m <;> simp
+
+theorem rstate_snoc (m : Bytes) (c : Byte) : ∀ s, rstate s (m ++ [c]) = (rstep (rstate s m) c).1 := by
+  induction m with
+  | nil => intro s; simp [rstate]
+  | cons x m ih => intro s; simp [rstate, ih]
+
+/-- the clear-cut cases of "partial last line" agree with the encoder model -/
+theorem partialMsg_eq (msg : Bytes) : partialMsg msg (rblast msg).isNone = (rblast msg).isNone := by
+  rcases List.eq_nil_or_concat msg with h | ⟨m, c, h⟩
+  · subst h; simp [partialMsg, rblast, rrun, rfinish]
+  · subst h
+    simp only [partialMsg, List.concat_eq_append, List.getLast?_append, List.getLast?_singleton, Option.some_or]
+    unfold rblast
+    rw [rrun_isNone, rstate_snoc]
+    by_cases hl : c = LF
+    · subst hl; cases rstate .top m <;> simp [rstep, rfinish]
+    · by_cases hc : c = CR
+      · subst hc; simp [CR, LF]
+      · simp only [hl, hc, if_false]
+        cases rstate .top m <;> by_cases hd : c = DOT <;> simp [rstep, rfinish, hl, hc, hd, DOT, CR, LF]
+
 end Nq.Lemmas.RemoteSmtp
